@@ -8,10 +8,14 @@ R31.1 sibling_arms(EditOp): per variant,
       . Insert (j-1 only; +1, +1; insert_token_at) . Delete (i-1 only; +0, +0; remove_token_at).
       Consuming an expected symbol (j-1) must advance exp_idx; the stream cursor moves past every token that remains in
       the stream.  A disagreement applies the script to the wrong positions.
-Minimality of the distance (min selection, +1 costs) is arithmetic and NOT decided.
+R31.2 the matrix fill agrees with the back-track table (see fill_rules): the operation recorded for a cell names the
+      predecessor whose cost was taken, each candidate test compares the cell that is then taken, boundary row / column
+      carry Insert / Delete, Keep copies d[i-1][j-1].
+Minimality of the distance as a value and scripts produced by a *restructured* algorithm (e.g. prefix stripping, seed
+C31-a) are NOT decided.
 """
 from .. import cfg
-from ..dataflow import operand_term, raw_operand_place, term_str
+from ..dataflow import operand_term, raw_operand_place, term_str, single_def
 from ..facts import AnchorMissing
 from .common import RT, where, short, only_via_edge
 from . import ll
@@ -139,3 +143,209 @@ def check(ctx):
               "the collected operations are reversed exactly once after the back-track loop",
               "the back-tracked operations are not reversed exactly once after the loop (%d reverse calls): the script would "
               "be applied back to front" % len(revs), where(lev))
+    fill_rules(ctx, facts, lev)
+
+
+# ------------------------------------------------------------------------------------------------------------------ R31.2
+WANT_FILL = {"Delete": (1, 0), "Insert": (0, 1), "Replace": (1, 1)}
+
+
+def _peel(t):
+    while isinstance(t, tuple) and t and t[0] == "proj":
+        t = t[1]
+    return t
+
+
+def _sh_place(body, place, depth=10):
+    """shallow value term that stops at user-named locals: ('var', name, local) | ('const', v) | ('bin', op, a, b) |
+    ('call', Call) | ('unknown',)"""
+    l = place[0]
+    if body.local_name(l):
+        return ("var", body.local_name(l), l)
+    if depth <= 0:
+        return ("unknown",)
+    d = single_def(body, l)
+    if d is None:
+        return ("unknown",)
+    if d[0] == "call":
+        return ("call", d[3])
+    rv = d[3]
+    if rv[0] == "use":
+        return _sh(body, rv[1], depth - 1)
+    if rv[0] in ("ref", "ptr", "cfd"):
+        return _sh_place(body, rv[-1], depth - 1)
+    if rv[0] == "cast":
+        return _sh(body, rv[2], depth - 1)
+    if rv[0] == "bin":
+        return ("bin", rv[1], _sh(body, rv[2], depth - 1), _sh(body, rv[3], depth - 1))
+    return ("unknown",)
+
+
+def _sh(body, op, depth=10):
+    if op[0] == "k":
+        return ("const", op[2])
+    if op[0] in ("c", "m"):
+        return _sh_place(body, op[1], depth)
+    return ("unknown",)
+
+
+def _idx(body, t, I=None, J=None):
+    """('i'|'j'|'0', offset) for an index term: the loop variable, the loop variable minus 1, or the constant 0"""
+    if t[0] == "const" and t[1] == 0:
+        return ("0", 0)
+    if t[0] == "var" and t[1] in ("i", "j"):
+        return (t[1], 0)
+    if t[0] == "bin" and t[1].startswith("Sub") and t[2][0] == "var" and t[2][1] in ("i", "j") and t[3] == ("const", 1):
+        return (t[2][1], 1)
+    return None
+
+
+def _cell_of_index_call(body, c, I=None, J=None):
+    """(matrix local name, idx1, idx2) for m[idx1][idx2] given the *inner* Index/IndexMut call"""
+    if (c.path or "").split("::")[-1] not in ("index", "index_mut") or len(c.args) < 2:
+        return None
+    outer = _sh(body, c.args[0])
+    if outer[0] != "call" or (outer[1].path or "").split("::")[-1] not in ("index", "index_mut"):
+        return None
+    oc = outer[1]
+    m = _sh(body, oc.args[0])
+    if m[0] != "var":
+        return None
+    return (m[1], _idx(body, _sh(body, oc.args[1])), _idx(body, _sh(body, c.args[1])))
+
+
+def _cost_cell_sh(body, t):
+    plus = 0
+    if t[0] == "bin" and t[1].startswith("Add") and t[3] == ("const", 1):
+        plus = 1
+        t = t[2]
+    if t[0] != "call":
+        return None
+    c = _cell_of_index_call(body, t[1])
+    return c + (plus,) if c else None
+
+
+def _cost_cell(body, op_or_rv, I=None, J=None):
+    """(matrix, idx1, idx2, plus) of an operand / rvalue  m[a][b]  or  m[a][b] + 1"""
+    if op_or_rv and op_or_rv[0] in ("c", "m", "k"):
+        return _cost_cell_sh(body, _sh(body, op_or_rv))
+    rv = op_or_rv
+    if rv[0] == "use":
+        return _cost_cell_sh(body, _sh(body, rv[1]))
+    if rv[0] == "bin":
+        return _cost_cell_sh(body, ("bin", rv[1], _sh(body, rv[2]), _sh(body, rv[3])))
+    return None
+
+
+def fill_rules(ctx, facts, lev):
+    """R31.2 the matrix fill agrees with the back-track table: the operation recorded for a cell names the predecessor whose cost
+    was taken: Delete <- d[i-1][j] + 1, Insert <- d[i][j-1] + 1, Replace <- d[i-1][j-1] + 1, Keep <- d[i-1][j-1]; each `candidate <
+    min` test compares the same cell that is taken; the boundary column/row carry Delete / Insert (the only move that stays
+    inside the matrix).  The back-track (R31.1) decrements i for Delete, j for Insert, both for Replace/Keep - a fill that
+    records another operation for a predecessor makes the script walk to a cell the cost did not come from."""
+    dom = cfg.Dom(lev)
+    MIN = [l for l in lev.locals_named("min")]
+    OP = [l for l in lev.locals_named("op") if not lev.local_ty(l).startswith("&")]
+    if len(MIN) != 1 or len(OP) != 1:
+        raise AnchorMissing("levenshtein_distance: cannot identify the locals min / op of the fill loop")
+    MIN, OP = MIN[0], OP[0]
+    I = J = None
+    mins = []
+    for d in lev.defs(MIN):
+        if d[0] == "assign":
+            mins.append((d[1], _cost_cell(lev, d[3]), lev.line_of_block(d[1])))
+    nops = 0
+    for d in lev.defs(OP):
+        if d[0] != "assign":
+            continue
+        rv = d[3]
+        if rv[0] == "use":
+            src = raw_operand_place(lev, rv[1])
+            sd = [x for x in lev.defs(src[0]) if x[0] == "assign"] if src else []
+            rv = sd[0][3] if len(sd) == 1 else rv
+        if rv[0] != "agg" or rv[2] != EDITOP:
+            continue
+        v = rv[3]
+        B = d[1]
+        # nearest dominating assignment of min
+        cands = [(mb, cell, ln) for mb, cell, ln in mins if dom.dominates(mb, B)]
+        cands.sort(key=lambda x: len(dom.dominators(x[0])))
+        near = cands[-1] if cands else None
+        nops += 1
+        want = WANT_FILL.get(v)
+        got = None
+        if near and near[1]:
+            m, a, b2, plus = near[1]
+            got = (m, a, b2, plus)
+        ok = bool(want and got and got[0] == "d" and got[1] == ("i", want[0]) and got[2] == ("j", want[1]) and got[3] == 1)
+        ctx.check(ok, "R31.2", "fill|%s" % v,
+                  "%s is recorded for the cost d[i-%d][j-%d] + 1" % (v, want[0], want[1]) if want else "",
+                  "the fill records %s for the cost taken from %s (expected d[i-%s][j-%s] + 1): the back-track moves to a cell the "
+                  "cost did not come from, the script no longer matches the distance" % (v, got, want and want[0], want and want[1]),
+                  where(lev, lev.line_of_block(B)))
+    ctx.require_floor("R31.2", "recorded_operations", nops, 3)
+    # candidate tests
+    tests = []
+    for t in range(len(lev.blocks)):
+        term = lev.term(t)
+        if term[0] != "switch":
+            continue
+        tt = _sh(lev, term[1])
+        if tt[0] != "bin" or tt[1] not in ("Lt", "Le", "Gt", "Ge"):
+            continue
+        cand = None
+        for s in (tt[2], tt[3]):
+            c = _cost_cell_sh(lev, s)
+            if c and c[0] == "d":
+                cand = c
+        if cand is None or not any(s[0] == "var" and s[1] == "min" for s in (tt[2], tt[3])):
+            continue
+        tests.append((t, cand))
+    ntests = len(tests)
+    for t, cand in tests:
+        taken = [mb for mb, cell, ln in mins if mb != t and only_via_edge(lev, t, {None}, mb) and
+                 not any(t2 != t and dom.dominates(t, t2) and dom.dominates(t2, mb) for t2, _c in tests)]
+        cells = [cell for mb, cell, ln in mins if mb in taken]
+        ctx.check(bool(cells) and all(c == cand for c in cells), "R31.2", "fill|candidate-test@%s" % (cand[1:],),
+                  "the tested candidate %s is the cost that is taken" % (cand,),
+                  "the candidate compared with min is %s but the cost taken on that branch is %s" % (cand, cells),
+                  where(lev, lev.line_of_block(t)))
+    ctx.require_floor("R31.2", "candidate_tests", ntests, 2)
+    # stores into the operation matrix: boundary and Keep
+    stores = []
+    for bi, si, p, rv, line, mac in lev.assigns():
+        if len(p) == 2 and p[1] == "*" and rv[0] == "use":
+            sd = single_def(lev, p[0])
+            if not sd or sd[0] != "call":
+                continue
+            cell = _cell_of_index_call(lev, sd[3], I, J)
+            if not cell or cell[0] != "ops":
+                continue
+            src = raw_operand_place(lev, rv[1])
+            vd = [x for x in lev.defs(src[0]) if x[0] == "assign"] if src else []
+            var = None
+            if len(vd) == 1 and vd[0][3][0] == "agg" and vd[0][3][2] == EDITOP:
+                var = vd[0][3][3]
+            stores.append((cell, var, line, bi))
+    for cell, var, line, bi in stores:
+        _m, a, b2 = cell
+        if a == ("i", 0) and b2 == ("0", 0):
+            ctx.check(var == "Delete", "R31.2", "fill|boundary-column", "ops[i][0] = Delete (only i can be decremented)",
+                      "ops[i][0] is %s: in column 0 only Delete stays inside the matrix" % var, where(lev, line))
+        elif a == ("0", 0) and b2 == ("j", 0):
+            ctx.check(var == "Insert", "R31.2", "fill|boundary-row", "ops[0][j] = Insert (only j can be decremented)",
+                      "ops[0][j] is %s: in row 0 only Insert stays inside the matrix" % var, where(lev, line))
+        elif var == "Keep":
+            # the cost stored next to it is d[i-1][j-1] unchanged
+            okk = False
+            for bi2, si2, p2, rv2, line2, mac2 in lev.assigns():
+                if len(p2) == 2 and p2[1] == "*" and rv2[0] == "use" and (dom.dominates(bi2, bi) or dom.dominates(bi, bi2)):
+                    sd = single_def(lev, p2[0])
+                    c2 = _cell_of_index_call(lev, sd[3], I, J) if sd and sd[0] == "call" else None
+                    if c2 and c2[0] == "d" and c2[1] == ("i", 0) and c2[2] == ("j", 0):
+                        val = _cost_cell(lev, rv2[1])
+                        if val == ("d", ("i", 1), ("j", 1), 0) and abs(line2 - line) <= 2:
+                            okk = True
+            ctx.check(okk, "R31.2", "fill|Keep", "Keep is recorded together with d[i][j] = d[i-1][j-1]",
+                      "Keep is recorded but the cost stored for the cell is not d[i-1][j-1] unchanged", where(lev, line))
+    ctx.require_floor("R31.2", "operation_matrix_stores", len(stores), 4)
